@@ -50,7 +50,7 @@ var (
 	pmDescT   = &fakeType{name: "gosmt.protoMessageDescriptor", methods: map[string]bool{"Name": true, "FullName": true, "Fields": true, "Oneofs": true, "Parent": true}}
 	// the parent of a top-level message: a file descriptor, which is not a message descriptor
 	pmFileT = &fakeType{name: "gosmt.protoFileDescriptor", methods: map[string]bool{"Path": true}}
-	pmFieldsT = &fakeType{name: "gosmt.protoFieldDescriptors", methods: map[string]bool{"ByName": true, "Len": true}}
+	pmFieldsT = &fakeType{name: "gosmt.protoFieldDescriptors", methods: map[string]bool{"ByName": true, "Len": true, "Get": true}}
 	pmOneofsT = &fakeType{name: "gosmt.protoOneofDescriptors", methods: map[string]bool{"ByName": true, "Len": true, "Get": true}}
 	pmFieldT  = &fakeType{name: "gosmt.protoFieldDescriptor", methods: map[string]bool{"Kind": true, "IsList": true, "Name": true, "JSONName": true}}
 	pmOneofT  = &fakeType{name: "gosmt.protoOneofDescriptor", methods: map[string]bool{"Name": true}}
@@ -296,6 +296,28 @@ func (ex *Exec) protoMethod(recv iface, name string) *modelClosure {
 		}
 	case pmFieldsT:
 		d := recv.v.(protoFieldsV)
+		if name == "Len" || name == "Get" {
+			// the declared fields in order; a message with a oneof also lists its members, which live on wrapper types
+			var idx []int
+			for i, fi := range protoFieldsOf(d.st) {
+				if fi.kind == -1 {
+					panic(ex.unsupported("protoreflect Fields() enumeration on a message with a oneof"))
+				}
+				if fi.kind >= 0 {
+					idx = append(idx, i)
+				}
+			}
+			if name == "Len" {
+				return mk(func(ex *Exec, fr *frame, pos token.Pos, args []value) value { return ex.k(int64(len(idx))) })
+			}
+			return mk(func(ex *Exec, fr *frame, pos token.Pos, args []value) value {
+				i, ok := args[1].(*smt.Term).ConstInt()
+				if !ok || !i.IsInt64() || i.Int64() < 0 || i.Int64() >= int64(len(idx)) {
+					panic(ex.unsupported("protoreflect Fields().Get with a symbolic or out-of-range index"))
+				}
+				return iface{pmFieldT, protoFieldV{st: d.st, idx: idx[i.Int64()]}}
+			})
+		}
 		if name == "ByName" {
 			return mk(func(ex *Exec, fr *frame, pos token.Pos, args []value) value {
 				want := ex.wantConcrete(args[1], "protoreflect Fields().ByName")
@@ -387,6 +409,28 @@ func (ex *Exec) protoMethod(recv iface, name string) *modelClosure {
 			return mk(func(ex *Exec, fr *frame, pos token.Pos, args []value) value { return ex.b.Bool(fi.list) })
 		case "Name":
 			return mk(func(ex *Exec, fr *frame, pos token.Pos, args []value) value { return ex.strConst(fi.name) })
+		case "JSONName":
+			return mk(func(ex *Exec, fr *frame, pos token.Pos, args []value) value {
+				if fi.json != "" {
+					return ex.strConst(fi.json)
+				}
+				// no json= in the tag: the JSON name is the lowerCamel form of the proto name (protoc's default)
+				out := make([]byte, 0, len(fi.name))
+				up := false
+				for i := 0; i < len(fi.name); i++ {
+					ch := fi.name[i]
+					if ch == '_' {
+						up = true
+						continue
+					}
+					if up && ch >= 'a' && ch <= 'z' {
+						ch -= 32
+					}
+					up = false
+					out = append(out, ch)
+				}
+				return ex.strConst(string(out))
+			})
 		}
 	case pmListT:
 		l := recv.v.(protoListV)
